@@ -138,7 +138,9 @@ func show(b *strings.Builder, v reflect.Value, depth int) {
 	case reflect.Map:
 		fmt.Fprintf(b, "%s{", v.Type())
 		keys := v.MapKeys()
-		sort.Slice(keys, func(i, j int) bool { return fmt.Sprint(keys[i].Interface()) < fmt.Sprint(keys[j].Interface()) })
+		// (keys of an interface-keyed map may print alike - 1 as int64, float64, uint8 -: the type breaks the tie)
+		ks := func(k reflect.Value) string { return fmt.Sprintf("%v\x00%T", k.Interface(), k.Interface()) }
+		sort.Slice(keys, func(i, j int) bool { return ks(keys[i]) < ks(keys[j]) })
 		for i, k := range keys {
 			if i > 0 {
 				b.WriteString(", ")
